@@ -59,7 +59,7 @@ void ExecImpl::clause_point(CallCtx& c) {
 
 // ---------------- reporter / tracer call-backs ----------------
 void RecTracer::trace(char const* file, unsigned long line, std::string const& call) {
-  if (g_cur) g_cur->cur_obs().traces.push_back(RawTrace{id, file ? file : "", line, call});
+  if (g_cur) { g_cur->cur_obs().traces.push_back(RawTrace{id, file ? file : "", line, call}); g_cur->on_trace(); }
 }
 
 void ExecImpl::install_reporter() {
@@ -97,6 +97,21 @@ void ExecImpl::on_ok() {
     if (n.first == -1 && !stop) {
       ++st.f_reentry; ++st.nested_ops; ++st.p_ok_reporter_op;
       step(n.second, true);
+    }
+  }
+}
+
+// ... and so is a tracer: operations attached at position -2 are performed by the tracer while it receives the record of
+// the call, i.e. after everything else of that call has happened (nothing may escape: it runs inside a destructor)
+void ExecImpl::on_trace() {
+  if (ctx_stack.empty() || stop) return;
+  CallCtx& c = *ctx_stack.back();
+  if (!c.op || c.trace_nested_done || !c.tracer_ops_allowed) return;
+  c.trace_nested_done = true;
+  for (auto& n : c.op->nested) {
+    if (n.first == -2 && !stop) {
+      ++st.f_reentry; ++st.nested_ops; ++st.p_tracer_op;
+      try { step(n.second, true); } catch (...) {}
     }
   }
 }
@@ -247,7 +262,7 @@ void ExecImpl::step(const Op& op, bool nested) {
   X(p_saturated_nomatch) X(p_seq_mismatch) X(p_passed_entry) X(p_release_unfulfilled) X(p_release_named) \
   X(p_moved_mock_call) X(p_seq_destroy_nonempty) X(p_monitor_ok) X(p_monitor_unexpected) X(p_monitor_still_alive) \
   X(p_monitor_seq_violation) X(p_with_rejects) X(p_lr_differs) X(p_trace_records) X(p_ok_reports) X(p_rt_inverted) \
-  X(p_multi_monitor) X(p_assign_watched) X(p_seq_taken_over) X(p_watched_mock_death) X(p_ok_reporter_op) X(p_call_in_handler) X(flag_observations)
+  X(p_multi_monitor) X(p_assign_watched) X(p_seq_taken_over) X(p_watched_mock_death) X(p_ok_reporter_op) X(p_call_in_handler) X(p_call_in_unwinding) X(p_tracer_op) X(flag_observations)
 
 void Stats::add(const Stats& o) {
   for (int i = 0; i < OP_KIND_COUNT; ++i) ops[i] += o.ops[i];
